@@ -1,6 +1,8 @@
 package main
 
 import (
+	"encoding/json"
+	"os/exec"
 	"sort"
 	"flag"
 	"fmt"
@@ -18,6 +20,8 @@ func main() {
 		cmdVC(os.Args[2:])
 	case "check":
 		os.Exit(cmdCheck(os.Args[2:]))
+	case "replay":
+		os.Exit(cmdReplay(os.Args[2:]))
 	case "list":
 		props, err := loadProps("/verif")
 		if err != nil {
@@ -98,4 +102,55 @@ func (e *Engine) runVerify(key string) {
 		}
 	}()
 	e.VerifyFunc(full)
+}
+
+// replay: re-run what a replay file records (the bounded test / the in-package
+// replay / the check itself) and show the recorded failure.
+func cmdReplay(args []string) int {
+	if len(args) < 1 {
+		fmt.Println("usage: check --replay <file>")
+		return 2
+	}
+	data, err := os.ReadFile(args[0])
+	if err != nil {
+		fmt.Println(err)
+		return 2
+	}
+	var rec struct {
+		Property string  `json:"property"`
+		Failure  Failure `json:"failure"`
+		Tier     string  `json:"tier"`
+	}
+	if err := json.Unmarshal(data, &rec); err != nil {
+		fmt.Println(err)
+		return 2
+	}
+	fmt.Printf("property %s\nobligation %s [%s]\nbackend %s\n%s\n", rec.Property, rec.Failure.Obligation, rec.Failure.Class, rec.Failure.Backend, rec.Failure.Detail)
+	if rec.Failure.Input != "" {
+		fmt.Println("input:", rec.Failure.Input)
+	}
+	if rec.Failure.SMTFile != "" {
+		fmt.Println("smt query:", rec.Failure.SMTFile)
+	}
+	if rec.Failure.SolverOut != "" {
+		fmt.Println("solver:", rec.Failure.SolverOut)
+	}
+	cmdline := rec.Failure.Replay
+	if cmdline == "" {
+		cmdline = "cd /verif && ./check " + rec.Property + " --tier " + rec.Tier
+	}
+	fmt.Println("re-running:", cmdline)
+	c := exec.Command("bash", "-c", cmdline)
+	c.Env = goEnv()
+	out, _ := c.CombinedOutput()
+	txt := string(out)
+	if len(txt) > 6000 {
+		txt = txt[len(txt)-6000:]
+	}
+	fmt.Println(txt)
+	if strings.Contains(txt, "VIOLATION") || strings.Contains(txt, "GOVC-REPLAY panic") || strings.Contains(txt, "GOVC-REPLAY violated") || strings.Contains(txt, rec.Failure.Class+"\"") {
+		fmt.Printf("VIOLATION property=%s replay=%s\n", rec.Property, args[0])
+		return 1
+	}
+	return 0
 }
